@@ -317,9 +317,75 @@ func checkSigGates(c *core.Ctx) {
 	}
 	arm := multiIf.Block().Succs[0]
 	join := multiIf.Block().Succs[1]
-	// all paths from the arm to the join: collect the gates (Ifs inside the arm whose other edge
-	// leads to a rejecting return)
 	inArm := core.ReachFrom(arm, map[*ssa.BasicBlock]bool{join: true})
+	rets := map[*ssa.BasicBlock]bool{}
+	for _, r := range m.Returns {
+		if r.Class != "ok" {
+			rets[r.R.Block()] = true
+		}
+	}
+	// the verification is either written in the arm itself, or in a helper of the package that the
+	// arm calls and whose non-nil result it returns as the rejection
+	region, rejecting, regionTx, regionFn := inArm, rets, tx, fn
+	var helperGate *ssa.If // the `h(…) != nil ⇒ reject` test in the arm, when a helper is used
+	var helper *ssa.Function
+	for b := range inArm {
+		iff := core.IfOf(b)
+		if iff == nil || !(rets[b.Succs[0]] || rets[b.Succs[1]]) {
+			continue
+		}
+		bin, ok := iff.Cond.(*ssa.BinOp)
+		if !ok || (bin.Op != token.NEQ && bin.Op != token.EQL) {
+			continue
+		}
+		k, isNil := core.Unwrap(bin.Y).(*ssa.Const)
+		if !isNil || !k.IsNil() {
+			continue
+		}
+		call, ok := core.Unwrap(bin.X).(*ssa.Call)
+		if !ok {
+			continue
+		}
+		h := call.Call.StaticCallee()
+		if h == nil || h.Blocks == nil || core.PkgOf(h) != core.PkgTx {
+			continue
+		}
+		// rejects on non-nil?
+		rejOnNonNil := (bin.Op == token.NEQ && rets[b.Succs[0]]) || (bin.Op == token.EQL && rets[b.Succs[1]])
+		if !rejOnNonNil {
+			continue
+		}
+		// the helper must contain the signature recovery
+		hasRecover := false
+		for _, hs := range core.Sites(h) {
+			if hs.Callee == "coreV2/transaction.RecoverPlain" {
+				hasRecover = true
+			}
+		}
+		if !hasRecover {
+			continue
+		}
+		helper, helperGate = h, iff
+		region = map[*ssa.BasicBlock]bool{}
+		rejecting = map[*ssa.BasicBlock]bool{}
+		for _, hb := range h.Blocks {
+			region[hb] = true
+		}
+		for _, r := range core.Returns(h) {
+			if len(r.Results) == 1 {
+				if kk, isK := core.Unwrap(r.Results[0]).(*ssa.Const); !(isK && kk.IsNil()) {
+					rejecting[r.Block()] = true
+				}
+			}
+		}
+		regionFn = h
+		regionTx = ""
+		for i, pp := range h.Params {
+			if i < len(call.Call.Args) && strings.TrimPrefix(core.Path(call.Call.Args[i]), "&") == tx {
+				regionTx = core.ParamName(pp)
+			}
+		}
+	}
 	type g struct {
 		name string
 		ok   bool
@@ -329,21 +395,45 @@ func checkSigGates(c *core.Ctx) {
 	gates := map[string]*g{
 		"is-multisig": {}, "count": {}, "recover-error": {}, "duplicate": {}, "threshold": {},
 	}
-	rets := map[*ssa.BasicBlock]bool{}
-	for _, r := range m.Returns {
-		if r.Class != "ok" {
-			rets[r.R.Block()] = true
+	// weight accumulation: total += GetWeight(recovered signer); the accumulator is the phi the sum feeds
+	var weightAdd *ssa.BinOp
+	for b := range region {
+		for _, in := range b.Instrs {
+			if bin, ok := in.(*ssa.BinOp); ok && bin.Op == token.ADD {
+				if call, ok := core.Unwrap(bin.Y).(*ssa.Call); ok && strings.HasSuffix(core.CalleeName(&call.Call), ".GetWeight") {
+					s := &core.Site{Instr: call, Common: &call.Call}
+					if isRecovered(s.Arg(0)) {
+						weightAdd = bin
+					}
+				}
+			}
 		}
 	}
-	var weightAdd *ssa.BinOp
-	for b := range inArm {
+	isAccumulator := func(v ssa.Value) bool {
+		if weightAdd == nil {
+			return false
+		}
+		v = core.Unwrap(v)
+		if v == ssa.Value(weightAdd) || v == core.Unwrap(weightAdd.X) {
+			return true
+		}
+		if ph, ok := v.(*ssa.Phi); ok {
+			for _, e := range ph.Edges {
+				if core.Unwrap(e) == ssa.Value(weightAdd) {
+					return true
+				}
+			}
+		}
+		return false
+	}
+	for b := range region {
 		iff := core.IfOf(b)
 		if iff == nil {
 			continue
 		}
 		// one edge must be a rejecting return block
-		rejTrue := rets[b.Succs[0]]
-		rejFalse := rets[b.Succs[1]]
+		rejTrue := rejecting[b.Succs[0]]
+		rejFalse := rejecting[b.Succs[1]]
 		if !rejTrue && !rejFalse {
 			continue
 		}
@@ -361,7 +451,7 @@ func checkSigGates(c *core.Ctx) {
 		}
 		switch x := cond.(type) {
 		case *ssa.Call:
-			if strings.HasSuffix(core.CalleeName(&x.Call), ".IsMultisig") && !rejectWhen && strings.Contains(core.Path(x.Call.Args[0]), ".GetAccount("+tx+".multisig.Multisig)") {
+			if strings.HasSuffix(core.CalleeName(&x.Call), ".IsMultisig") && !rejectWhen && regionTx != "" && strings.Contains(core.Path(x.Call.Args[0]), ".GetAccount("+regionTx+".multisig.Multisig)") {
 				gates["is-multisig"].ok, gates["is-multisig"].pos = true, iff.Pos()
 			}
 		case *ssa.Lookup:
@@ -376,7 +466,7 @@ func checkSigGates(c *core.Ctx) {
 			switch {
 			case isNilErrOfRecover(x) && rejectWhen == (x.Op == token.NEQ):
 				gates["recover-error"].ok, gates["recover-error"].pos = true, iff.Pos()
-			case x.Op == token.LSS && rejectWhen && strings.HasSuffix(py, ".Threshold") && strings.HasPrefix(px, "φtotalWeight"):
+			case x.Op == token.LSS && rejectWhen && strings.HasSuffix(py, ".Threshold") && isAccumulator(x.X):
 				gates["threshold"].ok, gates["threshold"].pos = true, iff.Pos()
 				thresholdBlock = b
 			case (x.Op == token.GTR || x.Op == token.LSS) && rejectWhen && (strings.Contains(px, "len(") || strings.Contains(py, "len(") || strings.Contains(px, "Signatures") || strings.Contains(py, "Signatures")):
@@ -384,35 +474,82 @@ func checkSigGates(c *core.Ctx) {
 			}
 		}
 	}
-	// weight accumulation: totalWeight += GetWeight(recovered signer)
-	for b := range inArm {
+	where := "the multisig arm"
+	if helper != nil {
+		where = core.ShortFn(helper) + " (called from the multisig arm, its non-nil result rejects)"
+	}
+	for name, gg := range gates {
+		c.Check(gg.ok, rule, "RunTx/multisig/"+name, gg.pos, "gate present in "+where+" with a rejecting edge", "multisig verification lacks the "+name+" gate")
+	}
+	c.Check(weightAdd != nil, rule, "RunTx/multisig/weight-source", posOfVal(weightAdd), "weight accumulated from GetWeight(address recovered from the signature)", "the accumulated weight does not come from GetWeight of the recovered signer")
+	// every signature is verified: the loop that recovers the signers is left only when the
+	// signatures are exhausted (from its header) or towards a rejection — not as soon as the
+	// collected weight suffices, which would leave the remaining signature slots unchecked bytes
+	// (no low-S / range / duplicate test) and the transaction malleable
+	var recoverBlock *ssa.BasicBlock
+	for b := range region {
 		for _, in := range b.Instrs {
-			if bin, ok := in.(*ssa.BinOp); ok && bin.Op == token.ADD {
-				if call, ok := core.Unwrap(bin.Y).(*ssa.Call); ok && strings.HasSuffix(core.CalleeName(&call.Call), ".GetWeight") {
-					s := &core.Site{Instr: call, Common: &call.Call}
-					if isRecovered(s.Arg(0)) {
-						weightAdd = bin
-					}
-				}
+			if call, ok := in.(*ssa.Call); ok && core.CalleeName(&call.Call) == "coreV2/transaction.RecoverPlain" && core.InCycle(b) {
+				recoverBlock = b
 			}
 		}
 	}
-	for name, gg := range gates {
-		c.Check(gg.ok, rule, "RunTx/multisig/"+name, gg.pos, "gate present in the multisig arm with a rejecting edge", "multisig verification lacks the "+name+" gate")
+	if recoverBlock == nil {
+		c.Bad(rule, "RunTx/multisig/all-signatures", regionFn.Pos(), "no loop that recovers the signer of each signature was found in the multisig verification")
+	} else {
+		loop := map[*ssa.BasicBlock]bool{}
+		fromRec := core.ReachFrom(recoverBlock, nil)
+		for b := range fromRec {
+			if core.ReachFrom(b, nil)[recoverBlock] {
+				loop[b] = true
+			}
+		}
+		loop[recoverBlock] = true
+		var header *ssa.BasicBlock
+		for b := range loop {
+			for _, pr := range b.Preds {
+				if !loop[pr] {
+					header = b
+				}
+			}
+		}
+		early := ""
+		for b := range loop {
+			for _, sc := range b.Succs {
+				if loop[sc] || b == header || rejecting[sc] {
+					continue
+				}
+				early = c.PosStr(b.Instrs[len(b.Instrs)-1].Pos())
+				if early == "" {
+					early = fmt.Sprintf("block %d of %s", b.Index, regionFn.Name())
+				}
+			}
+		}
+		c.Check(early == "", rule, "RunTx/multisig/all-signatures", posOfBlock(recoverBlock), "the signature loop is left only when all signatures were recovered or towards a rejection", "the loop that recovers the signers can be left early ("+early+") without rejecting: the signatures after that point are never verified — arbitrary bytes there still yield an accepted transaction")
 	}
-	c.Check(weightAdd != nil, rule, "RunTx/multisig/weight-source", posOfVal(weightAdd), "weight accumulated from GetWeight(address recovered from the signature)", "the accumulated weight does not come from GetWeight of the recovered signer")
-	// the arm cannot be skipped towards the dispatch except through the join after the threshold gate:
+	// the arm cannot be skipped towards the dispatch except through the threshold gate
 	disp := findDispatch(fn)
 	if disp != nil {
 		okDom := false
-		for _, gt := range core.GatesBefore(disp.Instr) {
-			_ = gt
-		}
-		// every path from the arm entry to the dispatch passes the threshold If
-		thrBlock := thresholdBlock
-		if thrBlock != nil {
-			reach := core.ReachFrom(arm, map[*ssa.BasicBlock]bool{thrBlock: true})
-			okDom = !reach[disp.Block()]
+		if thresholdBlock != nil {
+			if helper == nil {
+				reach := core.ReachFrom(arm, map[*ssa.BasicBlock]bool{thresholdBlock: true})
+				okDom = !reach[disp.Block()]
+			} else {
+				// every accepting (nil) return of the helper passes the threshold test, and the arm
+				// reaches the dispatch only through the helper's accepting outcome
+				reachH := core.ReachFrom(regionFn.Blocks[0], map[*ssa.BasicBlock]bool{thresholdBlock: true})
+				okDom = true
+				for _, r := range core.Returns(regionFn) {
+					if !rejecting[r.Block()] && r.Block() != regionFn.Recover && (reachH[r.Block()] || r.Block() == regionFn.Blocks[0]) {
+						okDom = false
+					}
+				}
+				reachArm := core.ReachFrom(arm, map[*ssa.BasicBlock]bool{helperGate.Block(): true})
+				if reachArm[disp.Block()] {
+					okDom = false
+				}
+			}
 		}
 		c.Check(okDom, rule, "RunTx/multisig/threshold-dominates-dispatch", disp.Pos(), "every path through the multisig arm to the dispatch passes the threshold test", "the dispatch is reachable from the multisig arm without passing the threshold test")
 	}
@@ -540,4 +677,13 @@ func isNilErrOfRecover(bin *ssa.BinOp) bool {
 		}
 	}
 	return false
+}
+
+func posOfBlock(b *ssa.BasicBlock) token.Pos {
+	for _, in := range b.Instrs {
+		if in.Pos().IsValid() {
+			return in.Pos()
+		}
+	}
+	return token.NoPos
 }
